@@ -604,3 +604,11 @@ Proof. vm_compute. reflexivity. Qed.
 Lemma sync_sets_ok :
   forallb (fun l => negb (in_set l tk_EOF) && (match l with [] => false | _ => true end)) [sync_stmtStart; sync_declStart; sync_exprEnd] = true.
 Proof. vm_compute. reflexivity. Qed.
+
+(* ================================================================== (e) header skeleton *)
+(* cond == nil (so that a BadExpr is substituted) only after p.error / p.expect reported *)
+Lemma header_cond_nil_implies_error t0 t1 t2 :
+  fst (header_skeleton t0 t1 t2) = true -> snd (header_skeleton t0 t1 t2) = true.
+Proof. destruct t0, t1, t2; vm_compute; auto. Qed.
+Lemma header_cond_nil_possible : exists t0 t1 t2, header_skeleton t0 t1 t2 = (true, true).
+Proof. exists KOther, KSemi, KStop. reflexivity. Qed.
